@@ -194,7 +194,7 @@ def plan_name(tier):
 
 
 def shards(tier):
-    return layers.shards(plan_name(tier), ('args',))
+    return layers.shards(plan_name(tier), ('args', 'sibs'))
 
 
 def prepare(tier):
@@ -226,7 +226,7 @@ SIGNATURES = {}
 
 def coverage(tier, total):
     return {
-        'rule': 'every L_wf document of (%s) and of the argument layer; every command / named environment: name = each of %r '
+        'rule': 'every L_wf document of (%s) , of the argument layer and of the sibling layer (4-8 siblings); every command / named environment: name = each of %r '
                 '(+ a name present elsewhere), args = reversed / every prefix / every slice; .string = each of %r where '
                 'defined; exact splice on the source, search before/after, re-parse.  distinct = distinct (document, edit)'
                 % (', '.join('%s <= %d nodes' % p for p in layers.PLAN[plan_name(tier)]), NEWNAMES, STRINGS),
